@@ -535,8 +535,9 @@ func c18Extras(g *sim.Stream, stmts []Stmt) []Stmt {
 			Stmt{Src: "cw := chan(1)"},
 			Stmt{Src: "tw := spawn(func() { got := <-cw; twv = got; return got })"},
 			Stmt{Src: fmt.Sprintf("twpad%d := %d", g.Intn(3), g.Intn(9))},
-			Stmt{Src: fmt.Sprintf("cw <- %d", 60+g.Intn(5))},
-			Stmt{Src: "tw.wait()"},
+			// (fed and waited for within one piece: when the assignment lands
+			// relative to the next piece is then not left to the scheduler)
+			Stmt{Src: fmt.Sprintf("cw <- %d\ntw.wait()", 60+g.Intn(5))},
 			Stmt{Src: fmt.Sprintf("mark(%d, twv)", c18TwMark)})
 	}
 	if len(extra) == 0 {
